@@ -18,9 +18,9 @@ mv "$demo_file" /tmp/$NAME.demo.rs
 if cargo test --workspace --no-fail-fast --offline >/tmp/$NAME.tests.log 2>&1; then T_WITH=pass; else T_WITH=FAIL; fi
 cp /tmp/$NAME.demo.rs "$demo_file"
 if cargo test -p "$crate" --test "$(basename "$demo_file" .rs)" --offline >/tmp/$NAME.demo_with.log 2>&1; then D_WITH=pass; else D_WITH=fail; fi
-git stash -q
+git apply -R /tmp/$NAME.patch
 if cargo test -p "$crate" --test "$(basename "$demo_file" .rs)" --offline >/tmp/$NAME.demo_without.log 2>&1; then D_WITHOUT=pass; else D_WITHOUT=fail; fi
-git stash pop -q
+git apply /tmp/$NAME.patch
 echo "existing tests with change: $T_WITH ; demo with change: $D_WITH ; demo without change: $D_WITHOUT"
 if [ "$T_WITH" != pass ] || [ "$D_WITH" != fail ] || [ "$D_WITHOUT" != pass ]; then echo "NOT CONFIRMED"; exit 3; fi
 mkdir -p /verif/seeded/$NAME
